@@ -110,7 +110,7 @@ def rule_flow(ctx: Ctx):
 
 
 def rule_collect(ctx: Ctx, rule: str = "C14.collect"):
-    from ..shapes import canon_lookup, collect_from_comp, collect_from_loop, missing_fact
+    from ..shapes import canon_lookup, collect_from_comp, collect_from_loop, missing_fact, through_getitem
 
     rep = ctx.rep
     # sync: every selected callback's value, in order, unfiltered (comprehension or explicit append loop)
@@ -147,6 +147,7 @@ def rule_collect(ctx: Ctx, rule: str = "C14.collect"):
                           f"return [] with missing={miss}")
             else:
                 lk = canon_lookup(v.func.value, p.events) if isinstance(v, ast.Call) and isinstance(v.func, ast.Attribute) else None
+                lk = through_getitem(ctx, "CallbacksRegistry", lk)
                 ok = lk == ("self._registry", key) and v.func.attr == meth and [show(a) for a in v.args] == ["*args"] and \
                     [show(k_.value) for k_ in v.keywords if k_.arg is None] == ["kwargs"]
                 rep.check(bool(ok), rule, reg.loc(), "registry.call hands the event's arguments to the executor of that key and returns its list", reg.key,
@@ -155,6 +156,7 @@ def rule_collect(ctx: Ctx, rule: str = "C14.collect"):
     for p in ctx.paths(rega, exc_edges="none"):
         v = expand1(p.value, p.events) if p.kind == "return" else None
         lk = canon_lookup(v.func.value, p.events) if isinstance(v, ast.Call) and isinstance(v.func, ast.Attribute) else None
+        lk = through_getitem(ctx, "CallbacksRegistry", lk)
         ok = lk == ("self._registry", rega.params[1]) and v.func.attr == "async_call" and [show(a) for a in v.args] == ["*args"]
         rep.check(bool(ok), rule, rega.loc(), "registry.async_call delegates to the executor of that key", rega.key, f"return {show(v)}")
 
